@@ -408,6 +408,9 @@ from .srcspecs_gcsa import SPECS_GCSA  # noqa: E402  (third extension, tag gcsa:
 SPECS += SPECS_GCSA
 from .srcspecs_filt import SPECS_FILT, HEADER_FILT  # noqa: E402  (tag filt: properties.py, Filter classes, dispatch)
 SPECS += SPECS_FILT; HEADER += HEADER_FILT  # noqa: E702
+from . import srcspecs_rec                     # recurrence.py: constructor, RRULE text, fetch dispatcher
+SPECS += srcspecs_rec.SPECS_REC
+HEADER = srcspecs_rec.HEADER_PRE + HEADER
 
 
 def regenerate(repo: Path, coq_dir: Path):
